@@ -223,7 +223,7 @@ func ratIsInt(r *big.Rat) bool { return r.IsInt() }
 
 type verdicts struct {
 	admitErr, binderErr error
-	task               *pod_info.PodInfo
+	task                *pod_info.PodInfo
 }
 
 func newValidator(sharing bool) podhooks.PodValidator {
